@@ -49,6 +49,18 @@ def gen(tier, seed, shard, nshards):
         for k, i in enumerate(pick):
             if k % nshards == shard:
                 yield "dagI", {"p": 5, "code3": int(codes[int(i)]), "I": int(rng.integers(1, 31))}
+    if n["dag5"]:
+        # dense DAGs without v-structures on 5 nodes (their CPDAG is one undirected chordal component) with a single target: the
+        # orientation forced at the target has to travel through several triangles, i.e. the Meek fix-point needs several sweeps
+        k = 0
+        for code in G.all_dag_codes(5):
+            out5 = G.dag_from_code3(5, code)
+            if G.n_edges(out5) >= 7 and not G.vstructures(out5):
+                if k % nshards == shard:
+                    rng = util.rng_for("C10", seed, "moral5", code)
+                    for t in rng.choice(5, 2, replace=False):
+                        yield "dagI", {"p": 5, "code3": int(code), "I": 1 << int(t), "moral": True}
+                k += 1
     # relabelled copies inside 9..13 nodes
     idx = 0
     for p in (3, 4):
@@ -147,7 +159,11 @@ def _judge_dag(U, out, A, Imask, family, case, rec, key, chain_variants=(True,))
             rec.exception_violation("C10:dag_to_icpdag-debug-exception", family, case, "dag_to_icpdag(debug=True) raised", e)
     for cc in chain_variants:
         try:
-            res = U.imec(A, Iarg) if cc is True else U.imec(A, Iarg, check_chain=False)
+            if (Imask + p) % 3 == 0:       # the third parameter given positionally
+                res = U.imec(A, Iarg, cc)
+                rec.count("call-form:positional")
+            else:
+                res = U.imec(A, Iarg) if cc is True else U.imec(A, Iarg, check_chain=False)
             lst, got = _gc.result_set(res)
         except Exception as e:
             rec.exception_violation("C10:imec-exception", family, case, "imec raised %s" % type(e).__name__, e)
@@ -245,7 +261,7 @@ def judge(family, case, rec):
             A = gmat.to_np(out, dtype=float)
             for cc in (True, False):
                 try:
-                    lst, got = _gc.result_set(U.imec(A, set(I), check_chain=cc))
+                    lst, got = _gc.result_set(U.imec(A, set(I), check_chain=cc) if (p + len(I)) % 2 else U.imec(A, set(I), cc))
                 except Exception as e:
                     rec.exception_violation("C10:imec-exception", family, case, "imec raised on a chain", e)
                     continue
